@@ -30,13 +30,25 @@ def assigns_value(func):
 
 
 def code(s):
-    """a text as one Lean `Nat` literal: UTF-8 bytes in base 256 behind 0x01"""
-    return '0x01' + s.encode('utf-8').hex()
+    """a text as one Lean `Nat` literal: its CODE POINTS, six hex digits each, behind 0x01 (a Python str is a list of code
+    points and may hold lone surrogates, which have no UTF-8 encoding)"""
+    return '0x01' + ''.join('%06x' % ord(c) for c in s)
 
 
 def comment_safe(s, n=110):
+    """for a Lean comment: printable, no comment delimiters, anything unusual as \\u{…} (the file is written as UTF-8: a lone
+    surrogate cannot be written raw)"""
     s = s.replace('\n', '⏎').replace('\t', '⇥').replace('\r', '␍').replace('-/', '-∕').replace('/-', '∕-')
-    return s[:n] + ('…' if len(s) > n else '')
+    out = []
+    for c in s[:n]:
+        o = ord(c)
+        if o < 32 or 0x7f <= o < 0xa1 or 0xd800 <= o <= 0xdfff or o in (0xad, 0x2028, 0x2029, 0xfeff, 0xfffe, 0xffff) \
+                or 0x200b <= o <= 0x200f or 0x202a <= o <= 0x202e or 0x2066 <= o <= 0x2069 or o > 0xffff or 0xfdd0 <= o <= 0xfdef \
+                or 0x300 <= o < 0x370 or o == 0x61c:
+            out.append('\\u{%x}' % o)
+        else:
+            out.append(c)
+    return ''.join(out) + ('…' if len(s) > n else '')
 
 
 def attr_data(lexer, parser, pmod, can):
@@ -74,7 +86,7 @@ def attr_data(lexer, parser, pmod, can):
         kind, _, detail = f['form'].partition(':')
         forms.append('(%s, %s, %s, %s, %s)' % tuple(lean_str(x) for x in (f['cls'], f['attr'], f['param'], kind, detail)))
     out = ['/-! ## round 5: from the result of `tokens_to_string` to the attribute the user reads (probed, see c16_attr.py) -/',
-           '/-- the texts of the probe rows, each as one number (UTF-8 bytes, base 256, behind 0x01); the first `nPayloads` are',
+           '/-- the texts of the probe rows, each as one number (code points, six hex digits each, behind 0x01); the first `nPayloads` are',
            'the payloads (template-like / regex-bait contents in every literal kind):']
     out += ['  %d %s: %s' % (i, pl['name'], comment_safe(pl['text'])) for i, pl in enumerate(r['payloads'])]
     out += ['  %d (read back, differs from what was passed): %s' % (i, comment_safe(t)) for i, t in enumerate(texts)
@@ -103,7 +115,7 @@ def attr_data(lexer, parser, pmod, can):
     badc = [g for g in r['ctor'] if g['passed'] != g['stored']]
     side = dict(embed=r['embed'], probed=r['probed'], attrs=r['attrs'], forms=r['forms'], problems=r['problems'],
                 payloads=r['payloads'],
-                templates=[dict(name=t['name'], prod=t['prod'], text=t['text'], nq=t['nq'], good=t.get('good', False),
+                templates=[dict(name=t['name'], prod=t['prod'], text=t['text'], nq=t['nq'], good=t.get('good', False), action=t.get('action'),
                                 paths=[[s[0] for s in sl] for sl in t.get('slots', [])]) for t in r['templates']],
                 glue_bad=bad[:40], ctor_bad=badc[:40], n_glue=len(r['glue']), n_ctor=len(r['ctor']))
     return out, side
